@@ -55,9 +55,18 @@ EndEv(e) ==
   /\ \A k \in DOMAIN val : e.finals[k + 1] = val[k]
   /\ UNCHANGED <<holder, val, tmp, pc, last, closures>>
 
+\* Non-reentrant use of two locks by one thread (a closure on lock 0 applies a closure on lock 1, always
+\* in this order): every call returned its closure's value, every thread came back, and both locks
+\* count every call - the sequential meaning of `threads * iters` nested read-modify-writes.
+NestedEv(e) ==
+  /\ e.e = "nested" /\ e.joined /\ e.bad = 0
+  /\ e.a = e.threads * e.iters /\ e.b = e.threads * e.iters
+  /\ UNCHANGED <<holder, val, tmp, pc, last, closures>>
+
 TraceNext ==
   /\ l <= Len(Rec) /\ l' = l + 1
   /\ LET e == Rec[l] IN StartEv(e) \/ EnterEv(e) \/ ReadEv(e) \/ WriteEv(e) \/ ExitEv(e) \/ ReturnEv(e) \/ EndEv(e)
+                        \/ NestedEv(e)
 TraceSpec == TraceInit /\ [][TraceNext]_vars
 
 \* Lock!MutualExclusion / NoLostUpdate on every state of the trace
